@@ -96,7 +96,7 @@ impl Buffer {
         // SAFETY: capacity was checked to be non-zero
         unsafe {
             #[cfg(dashu_verif)]
-            let _site = crate::verif::FallibleSite::enter();
+            let _site = crate::verif::FallibleSite::enter_at(crate::verif::SITE_BUFFER_ALLOC);
             let layout = Layout::array::<Word>(capacity).unwrap();
             let ptr = alloc::alloc::alloc(layout);
             if ptr.is_null() {
@@ -149,7 +149,7 @@ impl Buffer {
         // SAFETY: capacity was checked to be non-zero and the pointer is properly aligned
         unsafe {
             #[cfg(dashu_verif)]
-            let _site = crate::verif::FallibleSite::enter();
+            let _site = crate::verif::FallibleSite::enter_at(crate::verif::SITE_BUFFER_REALLOC);
             let old_layout = Layout::array::<Word>(self.capacity).unwrap();
             let new_layout = Layout::array::<Word>(capacity).unwrap();
             let new_ptr =
@@ -416,7 +416,7 @@ impl Buffer {
             // first shrink the buffer to tight
             // `Layout::array` cannot overflow here because self.capacity < Self::MAX_CAPACITY
             #[cfg(dashu_verif)]
-            let _site = crate::verif::FallibleSite::enter();
+            let _site = crate::verif::FallibleSite::enter_at(crate::verif::SITE_BOXED_SLICE);
             let old_layout = Layout::array::<Word>(me.capacity).unwrap();
             let new_layout = Layout::array::<Word>(me.len).unwrap();
             let new_ptr =
